@@ -302,14 +302,17 @@ class Ctx:
     def validate(self, module, trace, props, cfg=None, timeout=1200, label=None, heap=None):
         """impl -> spec: check a recorded trace against the trace specification.  Large traces are
         split at episode boundaries ("reset" events) into chunks validated by parallel TLC runs."""
-        limit = 120 * 1024 * 1024
+        # (TLC holds the whole deserialised trace in memory, roughly 25 bytes per byte of NDJSON)
+        limit = 64 * 1024 * 1024
+        # events that carry no state from one to the next may start a chunk just like a "reset"
+        stateless = ('"op":"from_bytes"', '"op":"uint_enc"', '"op":"uint_dec"', '"op":"str_dec"', '"op":"parse"', '"op":"roundtrip"', '"op":"fault"')
         if os.path.getsize(trace) > limit:
             chunks = []
             out = None
             size = 0
             with open(trace) as f:
                 for line in f:
-                    if out is None or (size > limit and '"op":"reset"' in line[:60]):
+                    if out is None or (size > limit and ('"op":"reset"' in line[:60] or any(k in line for k in stateless))):
                         if out:
                             out.close()
                         cp = "%s.chunk%d" % (trace, len(chunks))
